@@ -76,6 +76,7 @@ theorem markLoop_own (desc : Bool) (entry : Nat) (fuel : Nat) (st : MarkSt) (h :
           · -- a second return: rewire it to the remembered one
             rename_i r hr
             have hrlt : r < st.g.nodes.size := h4 r hr
+            unfold rewireReturn
             apply ih
             refine ⟨?_, ?_, ?_, ?_⟩
             · intro j hj
